@@ -177,7 +177,7 @@ def _boundaries(packets):
         yield pos
 
 
-def run_one(kind, stream, cuts, idle_steps, settings, cb, split_at=None, resume_at=None, bystander=False, cb_style="method"):
+def run_one(kind, stream, cuts, idle_steps, settings, cb, split_at=None, resume_at=None, bystander=False, cb_style="method", register_at=None):
     """split_at: byte offset (a packet boundary) at which the gateway drops the link; the rest of the stream arrives
     on the connection the client opens next."""
     async def scenario(sim):
@@ -187,7 +187,17 @@ def run_one(kind, stream, cuts, idle_steps, settings, cb, split_at=None, resume_
             return
         conn = sim.conns[0]
         pos = 0
+        if register_at is not None:
+            # the application registers its receive callback late: the client has been reading (and its decoder
+            # reassembling, learning identities) for a while with nobody listening
+            sim.client.set_receive_callback(None)
         for c in cuts + [len(stream)]:
+            if register_at is not None and pos < register_at <= c and sim.client.receive_callback is None:
+                if register_at > pos:
+                    conn.feed(stream[pos:register_at])
+                    pos = register_at
+                await asyncio.sleep(0.5)
+                sim.client.set_receive_callback(sim._styled(sim._on_receive))
             if split_at is not None and pos < split_at <= c and conn is sim.conns[0]:
                 if split_at > pos:
                     conn.feed(stream[pos:split_at])
@@ -305,6 +315,28 @@ def run_shard(spec, acc):
                     judge(sim, stats, want, acc, kind, "continued_after_reconnect", cuts, settings, cb, stream, undel, True)
                 else:
                     acc.count("second_connection_not_opened")
+            # late registration of the receive callback, at a packet boundary in the middle of the stream (possibly inside
+            # a fast-packet message, after address claims): everything the decoder returns for the packets after that point
+            # is delivered - the decoder itself has seen the whole stream
+            bl = sorted(bset)
+            if len(bl) > 8:
+                k = len(bl) // 2 + rng.randint(-3, 3)
+                reg = bl[k]
+                dec_ = NMEA2000Decoder(**settings)
+                want_late = []
+                for n_, p_ in enumerate(packets):
+                    try:
+                        m_ = (dec_.decode_tcp(p_) if kind == "ebyte" else dec_.decode_usb(p_) if kind == "waveshare" else
+                              dec_.decode_yacht_devices_string(p_.decode("utf-8", errors="ignore").strip()) if kind == "yd" else
+                              dec_.decode_actisense_string(p_.decode("utf-8", errors="ignore").strip()))
+                    except Exception:  # noqa: BLE001
+                        m_ = None
+                    if m_ is not None and n_ > k:
+                        want_late.append(project.msg_proj(m_))
+                cuts = sorted(rng.sample(range(1, len(stream)), min(20, len(stream) - 1)))
+                sim, stats = run_one(kind, stream, cuts, 1, settings, cb, register_at=reg)
+                acc.count("sessions_with_late_callback_registration")
+                judge(sim, stats, want_late, acc, kind, "receive_callback_registered_mid_stream", cuts, settings, cb, stream, undel, True)
             # the link dies in the middle of a packet; the next connection starts with the following packet. The cut packet
             # is lost (binary clients) or handed over as the partial line the stream reader returns at end of stream
             bl = sorted(bset)
